@@ -3,3 +3,5 @@ import OsyrisProofs.C16
 #print axioms Osyris.C16.C16_extract_sound
 #print axioms Osyris.C16.C16_box_component
 #print axioms Osyris.C16.C16_sphere_component
+#print axioms Osyris.C16.C16_box_row_phys
+#print axioms Osyris.C16.C16_sphere_row_phys
